@@ -14,6 +14,7 @@ import (
 	"strings"
 
 	openfgav1 "github.com/openfga/api/proto/openfga/v1"
+	"google.golang.org/protobuf/proto"
 
 	"github.com/openfga/language/pkg/go/zzverif"
 )
@@ -472,4 +473,32 @@ func VerifC17_Cycles() {
 	} else if !pPureComputedCycle(m) {
 		zzverif.Reach("other-cycle") // the property leaves the classification of other cycles open
 	}
+}
+
+// VerifC13_PlainGraphFrozen: building, rendering, querying and reversing the plain graph writes neither
+// into the model nor - for Reversed, GetDOT, PathExists, GetCycles - into the graph they are called on.
+func VerifC13_PlainGraphFrozen() {
+	m, _ := fFamilyModel()
+	zzverif.Freeze("model handed to NewAuthorizationModelGraph", m)
+	if !zzverif.Symbolic() {
+		snap := proto.Clone(m)
+		zzverif.FreezeNative("model handed to NewAuthorizationModelGraph", func() bool { return proto.Equal(snap, m) })
+	}
+	g, err := NewAuthorizationModelGraph(m)
+	if err != nil {
+		return
+	}
+	zzverif.Freeze("graph handed to Reversed/GetDOT/PathExists/GetCycles", g)
+	r, _ := g.Reversed()
+	_ = g.GetDOT()
+	_, _ = g.PathExists("user", "doc#a")
+	_ = g.GetCycles()
+	if r != nil {
+		// the label index of the copy is its own (the code says so); edge condition slices are shared
+		// between the two graphs, which no public function writes to after the build: not asserted
+		r.ids["zz"] = 99
+	}
+	_, has := g.ids["zz"]
+	zzverif.Assert(!has, "reversed-graph-has-its-own-label-index")
+	zzverif.Reach("queried")
 }
